@@ -151,6 +151,12 @@ func checkC12(c *Ctx) {
 	}
 	// moduli
 	checkBLSFieldTables(c, p, "C12.modulus")
+	// sign of an Fp2 element (lexicographic order, imaginary part first): the real part decides only when the
+	// imaginary part is zero
+	c.callArgRule(p, "C12.canon", "Fp2.IsNegative falls back to the real part exactly when the imaginary part is zero", p.Func("ecc/bls12381/ff", "Fp2", "IsNegative"), "(ecc/bls12381/ff.Fp).IsZero", "", map[int]string{0: `.*\[1\].*`})
+	// a decimal string with a minus sign is not a residue in [0, p): big.Int.FillBytes drops the sign
+	c.guard(p, "C12.canon", "a negative number is refused (its sign would be lost, -5 stored as 5)", p.Func("ecc/bls12381/ff", "", "setString"),
+		GuardSpec{Assumes: []Assume{calleeAssume(latInt(-1), -1, "(*math/big.Int).Sign")}})
 	c.tableVarInts(p, "C12.modulus", f25, "p", hexToLEBytes("7fffffffffffffffffffffffffffffffffffffffffffffffffffffffffffffed", 32))
 	c.tableVarInts(p, "C12.modulus", f448, "p", hexToLEBytes("fffffffffffffffffffffffffffffffffffffffffffffffffffffffeffffffffffffffffffffffffffffffffffffffffffffffffffffffff", 56))
 	c.tableVarInts(p, "C12.modulus", "ecc/fourq", "modulusP", hexToLEBytes("7fffffffffffffffffffffffffffffff", 16))
